@@ -33,6 +33,12 @@ type Script struct {
 	// stdin or stdout, and outlives it: it exits when StopHelpers is called
 	// (or after 150 s).
 	Helper bool `json:"helper,omitempty"`
+	// ExitCode is the status the plugin process ends with when it finishes
+	// normally (the protocol gives the exit status no meaning).
+	ExitCode int `json:"exit_code,omitempty"`
+	// OnInterrupt > 0: instead of ignoring the client's interrupt signal the
+	// plugin handles it like a conventional program and exits with this status.
+	OnInterrupt int `json:"on_interrupt,omitempty"`
 }
 
 type StepLog struct {
